@@ -76,7 +76,7 @@ Calls ==
         kk \in {"cat.delineate", "cat.boundary", "cat.flowpaths"}, s \in Shapes, fd \in FDs, o \in {"last", "first", "neg", "over"},
         i \in {"none", "valid", "invalid", "neg"}, nv \in {0, 1, 2, 3, 8}}
    \cup {[k |-> "cat.intersect", shape |-> s, fd |-> fd, outlet |-> "last", inlets |-> "none", nval |-> 20, cshape |-> cs, csz |-> cz, off |-> off, filled |-> f] :
-        s \in Shapes \cup {<<4, 4>>}, fd \in {"se", "west", "sink"}, cs \in {<<1, 1>>, <<2, 2>>, <<3, 3>>, <<5, 5>>}, cz \in {1, 2}, off \in {0, -1, 50}, f \in BOOLEAN}
+        s \in Shapes \cup {<<4, 4>>}, fd \in {"se", "west", "sink"}, cs \in {<<1, 1>>, <<2, 2>>, <<3, 3>>, <<5, 5>>}, cz \in {1, 2, 3}, off \in {0, -1, -2, 50}, f \in BOOLEAN}
    \cup {[k |-> "cat.voronoi", shape |-> s, fd |-> fd, outlet |-> "last", inlets |-> "none", nval |-> 8, n |-> n, p |-> p] :
         s \in Shapes, fd \in {"se", "west", "sink"}, n \in {0, 1, 2, 5}, p \in PtClasses}
    \cup {[k |-> "accumulate", shape |-> s, fd |-> fd, nprint |-> np, maxacc |-> ma] : s \in Shapes, fd \in FDs, np \in {0, 1, 100, -1}, ma \in {-1, 0, 1, 5}}
